@@ -18,6 +18,11 @@ from common import Check, load_known, rng, tier
 from sqltie import DIALECT_CLASSES as CLASSES, has_group_with_derived, has_where_in, has_window  # noqa: E402,F401
 
 
+# per-dialect deviations on statements of recorded classes (dialect, class) -> recorded C09 class
+DIALECT_VARIANT_CLASSES = {("clickhouse", "K-C01-4"): "K-C09-1", ("exasol", "K-C02-8"): "K-C09-2",
+                           ("sqlite", "K-C01-4"): "K-C09-9", ("trino", "K-C01-4"): "K-C09-9", ("tsql", "K-C01-4"): "K-C09-9"}
+
+
 def main() -> int:
     ck = Check("C09")
     ck.assumptions += ["which statements a dialect accepts, and the shape of its trees, is the parser's business (oracle); deviations that come from tree shape are recorded per (dialect, construct)",
@@ -27,6 +32,7 @@ def main() -> int:
     quick = tier() == "quick"
     r = rng("c09")
     spec_failures, disagreements, known_hits = [], [], {}
+    known_all = {f["id"]: f for f in load_known() if f["property"] == "C09" and f["status"] == "known"}
     n = 60 if quick else 1500
     stmts = astgen.gen_batch(r, n, (0, 1, 2), shapes=45 if quick else None)
     dialects = sqltie.installed_dialects()
@@ -95,6 +101,52 @@ def main() -> int:
             if x.split("#")[0] != want:
                 spec_failures.append({"suite": "join-keyword-spelling", "dialect": d, "sql": sql, "tables": x.split("#")[0], "spec": want,
                                       "detail": "JOIN keyword kinds with blanks / tabs / line breaks between the words"})
+    # statements of the RECORDED defect classes of C01/C02 (which the generator above stays out of) and structural variants of
+    # them: whatever the analysers answer there, C09 asks that they answer alike - the dialects among themselves, and the
+    # legacy analyser at table level.  Where the legacy analyser is right and the sqlfluff side is not (the same defect seen
+    # from here) the class is listed in K-C09-8 and reported as a known finding; any other disagreement is a violation.
+    variants = []
+    for f in load_known():
+        if f["property"] in ("C01", "C02") and f["status"] == "known" and "replay" in f and "sql" in f["replay"] and not f["replay"].get("metadata"):
+            variants.append((f["id"], f["replay"]["sql"]))
+    inner = "(with n as (select x from t) select x from n) a"
+    for k, sib in enumerate(["join n on 1 = 1", "join (select x from n) u on 1 = 1", ", (select x from n) u", "where a.x in (select x from n)",
+                             "join (select x from n union all select x from t) u on 1 = 1"]):
+        variants.append(("K-C01-5/v%d" % k, "insert into o select a.x from %s %s" % (inner, sib)))
+    variants.append(("K-C01-5/r0", "insert into o select a.x from n join %s on 1 = 1" % inner))
+    variants.append(("K-C01-5/r1", "insert into o select a.x from (select x from n) u join %s on 1 = 1" % inner))
+    for k, body in enumerate(["(select x from a union all select x from b) union all select x from c",
+                              "select x from c union all (select x from a union all select x from b)"]):
+        variants.append(("K-C01-6/v%d" % k, "insert into o " + body))
+    for k, q in enumerate(["select c from a where y in (select k from s.t1, s.t2)", "select c from a, b where y in (select k from s.t1 join s.t2 on 1 = 1)"]):
+        variants.append(("K-C01-4/v%d" % k, "insert into x " + q))
+    vd = dialects + ["non-validating"]
+    vout = t2tie.summaries([{"sql": q, "dialect": d, "metadata": None, "config": {}} for _, q in variants for d in vd])
+    legacy_listed = set((known_all.get("K-C09-8") or {}).get("classes", []))
+    dist["defect_class_variants"] = len(variants)
+    legacy_known = []
+    for vi, (cid, q) in enumerate(variants):
+        row = dict(zip(vd, vout[vi * len(vd):(vi + 1) * len(vd)]))
+        acc = {d: x for d, x in row.items() if not x.startswith("ERR:InvalidSyntax") and not x.startswith("ERR:UnsupportedStatement")}
+        fl = {d: x for d, x in acc.items() if d != "non-validating"}
+        if not fl:
+            continue
+        ref = Counter(fl.values()).most_common(1)[0][0]
+        for d, x in acc.items():
+            ck.count()
+            a, b = (x.split("#")[0], ref.split("#")[0]) if d == "non-validating" else (x, ref)
+            if a == b:
+                continue
+            case = {"suite": "defect-class-variants", "class": cid, "dialect": d, "sql": q, "this_dialect": a, "other_dialects": b,
+                    "spec": "an accepted core statement means the same under every dialect (and the legacy analyzer reports the same tables)"}
+            if d == "non-validating" and cid.split("/")[0] in legacy_listed:
+                legacy_known.append(case)
+            elif d in ("clickhouse", "exasol", "sqlite", "trino", "tsql") and (d, cid.split("/")[0]) in DIALECT_VARIANT_CLASSES:
+                known_hits.setdefault(DIALECT_VARIANT_CLASSES[(d, cid.split("/")[0])], case)
+            else:
+                spec_failures.append(case)
+    if legacy_known and "K-C09-8" in known_all:
+        ck.known("K-C09-8", known_all["K-C09-8"]["what"] + " (%d statements of this run, e.g. %r)" % (len(legacy_known), legacy_known[0]["sql"][:120]))
     # the tie, per dialect, on a sample (the model must equal the extractors whatever the dialect's trees look like)
     sample = stmts[: (25 if quick else 200)]
     for d in (r.sample(dialects, 8) if quick else dialects):
